@@ -4,6 +4,7 @@ import (
 	"fmt"
 	"go/token"
 	"go/types"
+	"math/big"
 	"os"
 	"sort"
 	"strings"
@@ -164,7 +165,7 @@ type Frame struct {
 
 type State struct {
 	G      *Term
-	ctx    map[int]bool
+	ctx    *Ctx
 	frames []*Frame
 	thread *Thread
 	// resume marks a state released by the scheduler: its pending sync op executes now.
@@ -349,6 +350,14 @@ type Exec struct {
 	fmtIDs       map[string]int
 	Trace        bool
 	nSel         int
+	adoptSeq     int
+	selCount     map[string]int
+	nArm         int
+	allocCache   map[string]*Object
+	threadCache  map[string]*Thread
+	nRand        int
+	nErr         int
+	randQueue    []*Term
 	KnownIDs     map[string]bool
 	AssertPrefix string
 	nNow         int
@@ -363,7 +372,7 @@ func NewExec(prog *ssa.Program, tb *TB, solver *Solver, bv bool) *Exec {
 		params: map[string]int64{}, wlIndex: map[string]*State{}, Unwind: 12,
 		FuncsSeen: map[string]string{}, Intrinsics: map[string]int{}, strLits: map[string]int{},
 		errObjs: map[string]*IfaceV{}, extGlobals: map[string]Value{}, FeasTimeout: 10000, QueryMs: 60000,
-		fmtIDs: map[string]int{}, start: time.Now(), timerOf: map[*Object]*timerRec{}}
+		fmtIDs: map[string]int{}, start: time.Now(), timerOf: map[*Object]*timerRec{}, allocCache: map[string]*Object{}, selCount: map[string]int{}, threadCache: map[string]*Thread{}}
 	return ex
 }
 
@@ -599,6 +608,7 @@ func (ex *Exec) runState(st *State) {
 		}
 		in := f.block.Instrs[f.pc]
 		ex.NInstr++
+		ex.adoptSeq = 0
 		if ex.Trace {
 			fmt.Printf("[%d] %s: %s   G=%s\n", len(st.frames), f.fi.fn.Name(), in, ex.tb.Show(st.G))
 		}
@@ -741,3 +751,14 @@ func inModule(fn *ssa.Function, modPath string) bool {
 }
 
 var _ = types.Identical
+
+// freshInt creates a solver variable, or the constant recorded for it in a concrete replay.
+func (ex *Exec) freshInt(name string, lo, hi *big.Int) *Term {
+	if v, ok := ex.Fixed[name]; ok {
+		bi, ok := new(big.Int).SetString(v, 10)
+		if ok {
+			return ex.tb.IntBig(bi)
+		}
+	}
+	return ex.tb.Var(name, SInt, lo, hi)
+}
